@@ -1,10 +1,19 @@
 import BeyondVerif.Model.DateCfg
 /-!
-Kernel-checked counter-witness for C03: with the IERS values of 2015-03-03 / 04 (UT1−UTC = −0.5295713 s and
-−0.5306080 s, TAI−UTC = 35 s) the date 2015-03-04T00:00:10 TAI — which is 2015-03-03T23:59:35 UTC — gets the EOP
-record of its *label* day (March 4); converted to UT1 it becomes a date of March 3 with that day's record, and the two
-are not the same instant: 1037 µs apart (the property allows 1 µs).  The harness replays the same input on the real
-`Date` (known finding `eop-record-by-label-day:UT1`).
+Kernel-checked witnesses for C03, with the IERS values of 2015-03-03 / 04 (UT1−UTC = −0.5295713 s and −0.5306080 s,
+TAI−UTC = 35 s).
+
+History.  Until /repo commit fc514f7 `Date.__init__` took the EOP record of the day number of the clock reading in the
+date's *own* scale: 2015-03-04T00:00:10 TAI (= 2015-03-03T23:59:35 UTC) got the record of March 4, its conversion to
+UT1 the record of March 3, and the theorem `label_day_changes_instant` of this file stated (by `decide`) that the two
+were 10 367 ticks = 1036.7 µs apart.  With the second lookup by UTC day (model: `eopFor`) that statement is false; its
+place is taken by `label_day_keeps_instant`: the same input is now the same instant up to 0.3 µs of rounding.
+
+Still a counter-witness to "same instant within 1 µs when UT1 is involved": UT1−UTC is a step function of the UTC day,
+so UT1 jumps at UTC midnight and clock readings within one day's change of UT1−UTC of that jump are ambiguous.
+2015-03-04T00:00:00 UTC converted to UT1 reads 2015-03-03T23:59:59.469392 UT1, which the constructor attributes to
+March 3 (`utc_midnight_band_changes_instant`; known finding `ut1-step-at-utc-midnight`, replayed on the real `Date`
+by the harness).
 -/
 namespace BeyondVerif.C03W
 open BeyondVerif.Date BeyondVerif.Generated
@@ -18,30 +27,46 @@ def env2 : Env :=
 
 /-- 2015-03-04T00:00:10 as microseconds since the MJD origin -/
 def us0 : Int := 4932144010000000
+/-- 2015-03-04T00:00:00 -/
+def usMidnight : Int := 4932144000000000
 
 def instOf (r : Except Err Date) : Option Int :=
   match r with
   | .ok x => some x.inst
   | .error _ => none
 
+def ut1Of (r : Except Err Date) : Option Int :=
+  match r with
+  | .ok x => some x.eop.ut1Utc
+  | .error _ => none
+
 def tai : Nat := scalesNames.idxOf "TAI"
 def ut1 : Nat := scalesNames.idxOf "UT1"
+def utc : Nat := scalesNames.idxOf "UTC"
 
-def converted : Except Err Date :=
-  match ofDatetime cfg env2 tai us0 with
-  | .ok x => changeScale cfg env2 x ut1
+def convert (frm : Nat) (us : Int) (to : Nat) : Except Err Date :=
+  match ofDatetime cfg env2 frm us with
+  | .ok x => changeScale cfg env2 x to
   | .error e => .error e
 
-/-- the conversion TAI → UT1 moves the instant by −10 367 ticks = −1036.7 µs -/
-theorem label_day_changes_instant :
-    instOf (ofDatetime cfg env2 tai us0) = some 49321440100000000 ∧ instOf converted = some 49321440099989633 := by
+/-- since fc514f7: the TAI date 10 s after TAI midnight carries the record of its UTC day (March 3), so does its
+conversion to UT1, and the instant is kept up to the rounding of the offset (3 ticks) -/
+theorem label_day_keeps_instant :
+    ut1Of (ofDatetime cfg env2 tai us0) = some (-5295713) ∧ ut1Of (convert tai us0 ut1) = some (-5295713) ∧
+    instOf (ofDatetime cfg env2 tai us0) = some 49321440100000000 ∧ instOf (convert tai us0 ut1) = some 49321440100000003 := by
   decide
 
-/-- the same conversion at noon (label day = UTC day) keeps the instant to the tick -/
+/-- the same conversion at noon keeps the instant to the tick -/
 theorem noon_keeps_instant :
-    instOf (match ofDatetime cfg env2 tai (us0 + 43200000000) with
-      | .ok x => changeScale cfg env2 x ut1
-      | .error e => .error e) = instOf (ofDatetime cfg env2 tai (us0 + 43200000000)) := by
+    instOf (convert tai (us0 + 43200000000) ut1) = instOf (ofDatetime cfg env2 tai (us0 + 43200000000)) := by
+  decide
+
+/-- still false of the code: UTC midnight of March 4 converted to UT1 is attributed to March 3 and moves by
+−10 367 ticks = −1036.7 µs, the change of UT1−UTC between the two days -/
+theorem utc_midnight_band_changes_instant :
+    instOf (ofDatetime cfg env2 utc usMidnight) = some 49321440350000000 ∧
+    instOf (convert utc usMidnight ut1) = some 49321440349989633 ∧
+    ut1Of (ofDatetime cfg env2 utc usMidnight) = some (-5306080) ∧ ut1Of (convert utc usMidnight ut1) = some (-5295713) := by
   decide
 
 end BeyondVerif.C03W
